@@ -3,10 +3,14 @@
 # quick/thorough: checks = rapid cases per rapid test per shard, shards = processes.
 
 ASSUMPTIONS = {
+    "C04": ["harness signature scheme (vcrypto) as trusted base for unforgeability", "reference validator and reference delta application in harness/vref written from the property statement", "no nil certificates are passed (caller precondition)"],
     "C08": ["integer arithmetic of the Go runtime and math/big", "power tables are well-formed (positive powers, distinct ids) as gpbft.PowerTable.Add demands"],
 }
 
 PROPS = {
+    "C04": dict(pkg="t_certs", run="^TestC04", level="exploration",
+                quick=dict(checks=1500, shards=8, timeout=400),
+                thorough=dict(checks=40000, shards=16, timeout=2400)),
     "C08": dict(pkg="t_arith", run="^TestC08", level="exploration",
                 quick=dict(checks=1500, shards=8, timeout=300),
                 thorough=dict(checks=60000, shards=16, timeout=1500)),
